@@ -129,18 +129,26 @@ def covariance_part(ck, tier):
             s = rng.standard_t(3, size=n)
         s = np.round(s * 64) / 64               # ties and exact binary scaling
         # the last two shifts put the data ~1e7 spreads from zero (still exactly representable: the sample is a multiple of 1/64)
-        for a_log2, b in ((-10, 0.0), (7, 0.0), (0, 37.0), (12, 5.0 * 2 ** 12), (-4, -1000.0), (0, 2.0 ** 24), (0, -(2.0 ** 26))):
+        # (the last map is held as 64-bit integers -- time-stamps of spread ~2^38 around 1.7e18 -- and queried at integer points)
+        for a_log2, b in ((-10, 0.0), (7, 0.0), (0, 37.0), (12, 5.0 * 2 ** 12), (-4, -1000.0), (0, 2.0 ** 24), (0, -(2.0 ** 26)), (36, "int")):
             a = 2.0 ** a_log2
-            t = a * s + b
+            as_int = b == "int"
+            if as_int:
+                b = 0.0
+                t0 = 1_700_000_000_000_000_000
+                t = (s * 64).astype(np.int64) * np.int64(2 ** 30) + np.int64(t0)
+            else:
+                t = a * s + b
             for mode in ("user", "rule", "cv"):
-                ident = {"case": case, "n": n, "shape": ["normal", "bimodal", "heavy-tailed"][kind], "a": a, "b": b, "bandwidth_mode": mode}
+                ident = {"case": case, "n": n, "shape": ["normal", "bimodal", "heavy-tailed"][kind], "a": a, "b": b, "bandwidth_mode": mode,
+                         "held_as": "int64 sample and int64 query points, offset 1.7e18" if as_int else "float64"}
                 try:
                     if mode == "user":
                         k1, k2 = make(s, bandwidth=0.3), make(t, bandwidth=0.3 * a)
                     elif mode == "rule":
                         k1, k2 = make(s), make(t)
                     else:
-                        if n > 90 or a_log2 == 7 or (a_log2 == 0 and abs(b) < 1e6):
+                        if n > 90 or a_log2 == 7 or (a_log2 == 0 and abs(b) < 1e6) or as_int:
                             continue
                         k1, k2 = make(s, cross_validation=True), make(t, cross_validation=True)
                 except Exception as ex:
@@ -149,8 +157,13 @@ def covariance_part(ck, tier):
                     continue
                 ck.case(("cov", case, a_log2, b, mode))
                 q = np.linspace(s.min() - 1.0, s.max() + 1.0, 41)
-                p1, p2 = np.asarray(k1(q)), np.asarray(k2(a * q + b))
-                c1, c2 = np.asarray(k1.cdf(q)), np.asarray(k2.cdf(a * q + b))
+                if as_int:
+                    q = np.round(q * 2 ** 20) / 2 ** 20
+                    tq = (q * 2 ** 20).astype(np.int64) * np.int64(2 ** 16) + np.int64(t0)
+                else:
+                    tq = a * q + b
+                p1, p2 = np.asarray(k1(q)), np.asarray(k2(tq))
+                c1, c2 = np.asarray(k1.cdf(q)), np.asarray(k2.cdf(tq))
                 herr = abs(k2.h / (a * k1.h) - 1.0)
                 perr = float(np.max(np.abs(p2 * a - p1)) / np.max(p1))
                 cerr = float(np.max(np.abs(c2 - c1)))
